@@ -750,3 +750,49 @@ Fixpoint canon (arg : bool) (e : expr) : bool :=
   end.
 
 End WithTables.
+
+(* ---------------------------------------------------------------- IN sets (SetLiteral / parseSet), token level *)
+Inductive setval := SNum (neg : bool) (ip : N) (fp : list N) | SStr (s : str).
+
+(* SetLiteral.RenderBytes: ( v , v , ... ) with numbers printed like NumberLiteral (current printer) and everything else
+   through QuoteString; the order is Go's map order, here the list order *)
+Definition setval_toks (v : setval) : list token :=
+  match v with
+  | SNum neg ip fp =>
+      let body := digits ip ++ match fp with [] => [] | _ => 46 :: frac_text fp end in
+      (if neg then [TOp OSub] else []) ++ [match fp with [] => TInteger body | _ => TNumber body end]
+  | SStr s => [TString s]
+  end.
+Fixpoint set_items_toks (vs : list setval) : list token :=
+  match vs with
+  | [] => []
+  | [v] => setval_toks v
+  | v :: r => setval_toks v ++ TComma :: set_items_toks r
+  end.
+Definition set_print_toks (vs : list setval) : list token := TLParen :: set_items_toks vs ++ [TRParen].
+
+(* parseSet: after the opening parenthesis every token with a literal text is recorded (INTEGER/NUMBER through
+   ParseFloat, the others verbatim); tokens without text - commas and SIGNS - are skipped; stops at ) *)
+Fixpoint parse_set_items (toks : list token) : option (list setval) :=
+  match toks with
+  | [] => None
+  | TRParen :: _ => Some []
+  | t :: r =>
+      match parse_set_items r with
+      | None => None
+      | Some vs =>
+          match t with
+          | TInteger s | TNumber s => match parse_number s with Some (ip, fp) => Some (SNum false ip fp :: vs) | None => Some vs end
+          | TString s | TIdent s | TDuration s => Some (SStr s :: vs)
+          | _ => Some vs
+          end
+      end
+  end.
+Definition parse_set (toks : list token) : option (list setval) :=
+  match skip_ws toks with
+  | TLParen :: r => parse_set_items r
+  | _ => None
+  end.
+
+Definition setval_nonneg (v : setval) : bool :=
+  match v with SNum neg _ fp => negb neg && frac_ok fp | SStr _ => true end.
